@@ -70,6 +70,17 @@ class Ctx:
         self.inputs[name] = v
         return v
 
+    def boolean(self, name):
+        """A z3 Bool input (symbolic) or a constant z3 BoolVal taken from the witness (concrete)."""
+        if name in self.inputs:
+            return self.inputs[name].t
+        if self.symbolic:
+            b = z3.Bool(name)
+        else:
+            b = z3.BoolVal(bool(self.values.get(name, False)))
+        self.inputs[name] = SymBool(b)
+        return b
+
     def reals(self, names):
         return [self.real(n) for n in names]
 
@@ -244,6 +255,10 @@ def run_concrete(sc, values, choices):
 def concrete_ob_failed(ob):
     if ob.kind == "true":
         c = ob.cond
+        if isinstance(c, SymBool):
+            c = c.t
+        if isinstance(c, z3.ExprRef):
+            return not z3.is_true(z3.simplify(c))
         return not bool(c)
     return not close(ob.impl, ob.oracle)
 
@@ -254,6 +269,8 @@ def witness_of(model, inputs):
         if isinstance(v, SymReal):
             fr = S.model_value(model, v.t)
             out[name] = float(fr) if fr is not None else 0.0
+        elif isinstance(v, SymBool):
+            out[name] = bool(z3.is_true(model.eval(v.t, model_completion=True)))
     return out
 
 
